@@ -174,6 +174,8 @@ type outcome struct {
 	network   bool // connection closed: retryable only when the client sees a temporary error
 	partial   bool
 	longMsg   int // partial success: pad the rejection message to this many bytes
+	countOnly bool // partial success: a rejected count and no message at all
+	msgOnly   bool // partial success: a message and a rejected count of zero (a warning)
 }
 
 func httpOutcome(code int, retryAfter int) outcome {
@@ -279,6 +281,7 @@ func (rw row) String() string {
 func runRow(k *vf.Case, rw row) {
 	token := fmt.Sprintf("tok%dx%d", k.Index, k.R.Intn(1_000_000))
 	seq := rw.seq
+	rejectedN := int64(7_000_000 + (k.Index%2000)*1000 + k.R.Intn(1000)) // recognisable in the handler's messages
 	script := func(r *otlpsrv.Request) otlpsrv.Response {
 		if r.N <= len(seq) {
 			resp := seq[r.N-1].resp
@@ -286,6 +289,12 @@ func runRow(k *vf.Case, rw row) {
 				resp.PartialMsg = "rejected-" + token
 				if n := seq[r.N-1].longMsg; n > 0 {
 					resp.PartialMsg += " " + strings.Repeat("x", n)
+				}
+				if seq[r.N-1].countOnly {
+					resp.PartialMsg, resp.PartialN = "", rejectedN
+				}
+				if seq[r.N-1].msgOnly {
+					resp.PartialN = 0
 				}
 			}
 			if rw.cancel == "shutdown-during-delay" && r.N == 1 {
@@ -345,7 +354,7 @@ func runRow(k *vf.Case, rw row) {
 		k.Violate(class, rw.kind+" "+key, fmt.Sprintf("%s\n%s\nrequests: %s", rw, detail, strings.Join(tl, ", ")), nil)
 	}
 	var shutdownMu sync.Mutex
-	var shutdownRet time.Time
+	var shutdownRet, cancelledAt time.Time
 	ctx, cancel := context.WithCancel(context.Background())
 	defer cancel()
 	switch rw.cancel {
@@ -365,6 +374,19 @@ func runRow(k *vf.Case, rw row) {
 				time.Sleep(time.Millisecond)
 			}
 			time.Sleep(20 * time.Millisecond)
+			cancel()
+		}()
+	case "during-long-hint":
+		// the budget is unbounded (MaxElapsedTime 0) and the collector asks for 90 s: the export keeps waiting
+		// until its context is cancelled 400 ms after the first attempt - it must not have given up before
+		go func() {
+			for i := 0; i < 2000 && srv.Count() == 0; i++ {
+				time.Sleep(time.Millisecond)
+			}
+			time.Sleep(400 * time.Millisecond)
+			shutdownMu.Lock()
+			cancelledAt = time.Now()
+			shutdownMu.Unlock()
 			cancel()
 		}()
 	case "shutdown-during-backoff", "shutdown-during-delay":
@@ -471,6 +493,18 @@ func runRow(k *vf.Case, rw row) {
 		if rw.cancel == "before" && len(reqs) > 1 {
 			fail("request-after-cancellation", rw.cancel, fmt.Sprintf("%d requests", len(reqs)))
 		}
+		if rw.cancel == "during-long-hint" {
+			shutdownMu.Lock()
+			ca := cancelledAt
+			shutdownMu.Unlock()
+			if ca.IsZero() || returnedAt.Before(ca) {
+				fail("gave-up-although-budget-unbounded", rw.cancel, fmt.Sprintf("retry enabled with MaxElapsedTime 0 (no limit), the collector answered Unavailable with RetryInfo 90 s, the context was still alive: Export returned after %v with %v", took.Round(time.Millisecond), exportErr))
+			}
+			if len(reqs) != 1 {
+				fail("retry-after-cancellation", rw.cancel, fmt.Sprintf("%d requests", len(reqs)))
+			}
+			k.C.Count("rows_unbounded_budget_long_hint", 1)
+		}
 		if (rw.cancel == "during-backoff" || rw.cancel == "shutdown-during-backoff") && len(reqs) != 1 {
 			fail("retry-after-cancellation", rw.cancel, fmt.Sprintf("%d requests although cancelled/shut down during a wait of at least 2.5 s (5 s hint / 5 s initial backoff)", len(reqs)))
 		}
@@ -564,7 +598,11 @@ func runRow(k *vf.Case, rw row) {
 				fail("partial-success-returned-as-error", "", exportErr.Error())
 			}
 			time.Sleep(2 * time.Millisecond)
-			if !theHandler.has("rejected-" + token) {
+			if o.countOnly {
+				if !theHandler.has(fmt.Sprint(rejectedN)) {
+					fail("partial-success-not-reported", "rejected count without a message", fmt.Sprintf("the collector rejected %d items (no error message): nothing about it reached the ErrorHandler", rejectedN))
+				}
+			} else if !theHandler.has("rejected-" + token) {
 				fail("partial-success-not-reported", "", "the rejection message never reached the ErrorHandler")
 			}
 			k.C.Count("partial_success_rows", 1)
@@ -713,6 +751,12 @@ func tableA() []row {
 			rows = append(rows, row{kind: kind, seq: []outcome{httpOutcome(429, 1)}, rc: on, table: "A", gz: true})
 			rows = append(rows, row{kind: kind, seq: []outcome{networkOutcome()}, rc: on, table: "A"})
 			rows = append(rows, row{kind: kind, seq: []outcome{partialOutcome(true, "")}, rc: on, table: "A"})
+			for v := 0; v < 2; v++ {
+				po := partialOutcome(true, "")
+				po.countOnly, po.msgOnly = v == 0, v == 1
+				po.name += map[int]string{0: " (rejected count, empty message)", 1: " (message, rejected count 0)"}[v]
+				rows = append(rows, row{kind: kind, seq: []outcome{po}, rc: on, table: "A"})
+			}
 			ch := partialOutcome(true, "")
 			ch.resp.Chunked = true
 			ch.name += " (chunked, no Content-Length)"
@@ -735,6 +779,12 @@ func tableA() []row {
 				}
 			}
 			rows = append(rows, row{kind: kind, seq: []outcome{partialOutcome(false, "")}, rc: on, table: "A"})
+			for v := 0; v < 2; v++ {
+				po := partialOutcome(false, "")
+				po.countOnly, po.msgOnly = v == 0, v == 1
+				po.name += map[int]string{0: " (rejected count, empty message)", 1: " (message, rejected count 0)"}[v]
+				rows = append(rows, row{kind: kind, seq: []outcome{po}, rc: on, table: "A"})
+			}
 			for _, n := range []int{5000, 70000} {
 				lp := partialOutcome(false, "")
 				lp.longMsg = n
@@ -774,6 +824,10 @@ func tableC() []row {
 			ok = grpcOutcome(codes.OK, 0)
 		}
 		rows = append(rows, row{kind: kind, seq: []outcome{ok}, rc: on, cancel: "before", table: "C"})
+		if !isHTTP(kind) {
+			rows = append(rows, row{kind: kind, seq: []outcome{grpcOutcome(codes.Unavailable, 90*time.Second)}, rc: retryCfg{Enabled: true, MaxElapsed: 0}, cancel: "during-long-hint", table: "C"})
+			rows = append(rows, row{kind: kind, seq: []outcome{grpcOutcome(codes.ResourceExhausted, 61*time.Second)}, rc: retryCfg{Enabled: true, MaxElapsed: 0}, cancel: "during-long-hint", table: "C", noTimeout: true})
+		}
 		rows = append(rows, row{kind: kind, seq: []outcome{ok}, rc: on, cancel: "during-delay", table: "C"})
 		rows = append(rows, row{kind: kind, seq: []outcome{slow}, rc: on, cancel: "during-backoff", table: "C", longBackoff: true})
 		rows = append(rows, row{kind: kind, seq: []outcome{slow}, rc: on, cancel: "shutdown-during-backoff", table: "C", longBackoff: true})
